@@ -251,5 +251,8 @@ func runC12(args []string) error {
 		return err
 	}
 	sum.CasesFiles = names
+	if err := runC12Bookkeeping(sum); err != nil {
+		return err
+	}
 	return sum.write(rf.Out, "c12")
 }
